@@ -26,7 +26,7 @@ EXTENDS Integers, Sequences, FiniteSets, TLC, SequencesExt
 
 CONSTANTS MaxTx,      \* base blocks carry the lists <<t1..tn>>, n \in 0..MaxTx (non-powers of two included)
           RepTx,      \* ... and every list over {t1,t2} of length 1..RepTx (repeated transactions)
-          Full,       \* TRUE: every tx list x every header variant; FALSE: tx lists on a plain header + header variants on two lists
+          Full,       \* TRUE: every tx list x every header variant; FALSE: every tx list on a plain header + every header variant once
           Rich,       \* TRUE: larger value alphabet for the variable-length parts
           KF_MerkleDupLastTx,      \* VerifyMerkle never compares tx_count with the length of the body
           KF_MerkleTreeUnchecked,  \* VerifyBlock never reads the merkle_tree array (QueryBlock rebuilds the body from it)
@@ -113,9 +113,11 @@ SVar(j) == IF j = 0 THEN SEmpty ELSE SOne
 Prof(t, f, j, b) == [txs |-> t, failed |-> f, just |-> j, tbits |-> b]
 Profiles ==
   IF Full THEN {Prof(t, f, j, b) : t \in TxLists, f \in FailedVariants, j \in JustVariants, b \in {0, PowBits}}
-  ELSE {Prof(t, F0, J0, 0) : t \in TxLists}
-       \cup {Prof(Canon(IF MaxTx < 3 THEN MaxTx ELSE 3), f, j, b) : f \in FailedVariants, j \in JustVariants, b \in {0, PowBits}}
-       \cup {Prof(Canon(IF MaxTx < 5 THEN MaxTx ELSE 5), F2, J2, PowBits), Prof(Canon(0), F1, J1, 0)}
+  ELSE LET c3 == Canon(IF MaxTx < 3 THEN MaxTx ELSE 3)
+           c5 == Canon(IF MaxTx < 5 THEN MaxTx ELSE 5) IN
+       {Prof(t, F0, J0, 0) : t \in TxLists}                       \* every tx list on a plain header
+       \cup {Prof(c3, F0, J0, PowBits), Prof(c3, F1, J0, 0), Prof(c3, F2, J0, 0), Prof(c3, F0, J1, 0), Prof(c3, F0, J2, PowBits),
+             Prof(c5, F2, J2, PowBits), Prof(Canon(0), F1, J1, 0)}  \* every header variant once
 
 -----------------------------------------------------------------------------
 (* MakeMerkleTree, as the loop is written: complete tree over LeafSize(n) leaves stored as an   *)
@@ -411,14 +413,14 @@ MutationRejectedByConsensus == (phase = "done" /\ Hdr(orig) # Hdr(blk) /\ (verdi
 
 (* merkle lemmas over all lists of <= 6 entries over 3 ids (evaluated once, in the initial state): *)
 (* the array construction and the level-wise definition agree; lists of equal length never share  *)
-(* a root (so count + root determine the list); lists of different length do (the padding).        *)
-LemmaLists == UNION {[1..n -> {"t1", "t2", "t3"}] : n \in 0..6}
-LemmaRoots == [l \in LemmaLists |-> SemRoot(l)]
+(* a root (so count + root determine the list).                                                   *)
+ListsOfLen(n) == [1..n -> {"t1", "t2", "t3"}]
 MerkleLemma == phase = "init" =>
-     LET R == LemmaRoots IN
-     /\ \A l \in LemmaLists : RootOf(MakeTree(l)) = R[l]
-     /\ \A l1, l2 \in LemmaLists : (Len(l1) = Len(l2) /\ R[l1] = R[l2]) => l1 = l2
-(* the structural collisions: which pairs share a root although they differ (not an invariant;   *)
-(* TLC reports the padding collision as a counterexample to NoRootCollision)                      *)
-NoRootCollision == phase = "init" => LET R == LemmaRoots IN \A l1, l2 \in LemmaLists : R[l1] = R[l2] => l1 = l2
+     \A n \in 0..6 : LET S == ListsOfLen(n) IN
+        /\ \A l \in S : RootOf(MakeTree(l)) = SemRoot(l)
+        /\ Cardinality({SemRoot(l) : l \in S}) = Cardinality(S)
+(* Lists of different length do share roots (the padding).  Not an invariant: checking it makes   *)
+(* TLC report the structural collision, e.g. <<t1,t2,t3>> / <<t1,t2,t3,t3>>.                       *)
+NoRootCollision == phase = "init" =>
+     \A l1, l2 \in UNION {ListsOfLen(n) : n \in 0..4} : SemRoot(l1) = SemRoot(l2) => l1 = l2
 =============================================================================
